@@ -121,30 +121,46 @@ class AsyncHTTPConnection(AsyncConnectionInterface):
 
         while True:
             try:
-                if self._uds is None:
-                    kwargs = {
-                        "host": self._origin.host.decode("ascii"),
-                        "port": self._origin.port,
-                        "local_address": self._local_address,
-                        "timeout": timeout,
-                        "socket_options": self._socket_options,
-                    }
-                    async with Trace("connect_tcp", logger, request, kwargs) as trace:
-                        stream = await self._network_backend.connect_tcp(**kwargs)
-                        trace.return_value = stream
-                else:
-                    kwargs = {
-                        "path": self._uds,
-                        "timeout": timeout,
-                        "socket_options": self._socket_options,
-                    }
-                    async with Trace(
-                        "connect_unix_socket", logger, request, kwargs
-                    ) as trace:
-                        stream = await self._network_backend.connect_unix_socket(
-                            **kwargs
-                        )
-                        trace.return_value = stream
+                connected: AsyncNetworkStream | None = None
+                try:
+                    if self._uds is None:
+                        kwargs = {
+                            "host": self._origin.host.decode("ascii"),
+                            "port": self._origin.port,
+                            "local_address": self._local_address,
+                            "timeout": timeout,
+                            "socket_options": self._socket_options,
+                        }
+                        async with Trace(
+                            "connect_tcp", logger, request, kwargs
+                        ) as trace:
+                            connected = await self._network_backend.connect_tcp(
+                                **kwargs
+                            )
+                            trace.return_value = connected
+                    else:
+                        kwargs = {
+                            "path": self._uds,
+                            "timeout": timeout,
+                            "socket_options": self._socket_options,
+                        }
+                        async with Trace(
+                            "connect_unix_socket", logger, request, kwargs
+                        ) as trace:
+                            connected = (
+                                await self._network_backend.connect_unix_socket(
+                                    **kwargs
+                                )
+                            )
+                            trace.return_value = connected
+                except BaseException as exc:
+                    # The trace callback that reports the established stream
+                    # may fail or be cancelled. Nothing else owns the stream yet.
+                    if connected is not None:
+                        with AsyncShieldCancellation():
+                            await connected.aclose()
+                    raise exc
+                stream = connected
 
                 if self._origin.scheme in (b"https", b"wss"):
                     ssl_context = (
